@@ -27,8 +27,15 @@ pub struct EnetCase {
     pub l1_ratio: f64,
     pub intercept: bool,
     pub tol: f64,
+    /// `max_iterations` of the fit (tier-dependent fixed work: 30 000 quick, 100 000 thorough)
+    #[serde(default = "default_max_iter")]
+    pub max_iter: u32,
     /// seed of the random perturbation directions tried by the oracle
     pub pert_seed: u64,
+}
+
+fn default_max_iter() -> u32 {
+    100_000
 }
 
 #[derive(Debug, Clone, Serialize, Deserialize)]
@@ -291,7 +298,7 @@ fn l1_s() -> impl Strategy<Value = f64> {
     prop_oneof![1 => Just(0.0), 2 => Just(0.3), 2 => Just(0.5), 3 => Just(1.0)]
 }
 
-pub fn enet_strategy(flavor: Flavor) -> impl Strategy<Value = EnetCase> {
+pub fn enet_strategy(flavor: Flavor, max_iter: u32) -> impl Strategy<Value = EnetCase> {
     let tol = if flavor == Flavor::F32 {
         prop_oneof![Just(1e-3), Just(1e-4)].boxed()
     } else {
@@ -310,6 +317,7 @@ pub fn enet_strategy(flavor: Flavor) -> impl Strategy<Value = EnetCase> {
                 l1_ratio,
                 intercept,
                 tol,
+                max_iter,
                 pert_seed,
             }
         },
